@@ -38,48 +38,12 @@ theorem lookup_dataOf (data : Data) (i : String) : (dataOf data i).lookup i = da
       have h2 : (i == k) = false := by simpa using fun hh : i = k => h hh.symm
       simp [List.filter, List.lookup, h1, h2, ih]
 
-theorem hasKey_assocSet (k n : String) (v : Val) (d : Data) :
-    hasKey k (assocSet n v d) = (n == k || hasKey k d) := by
-  induction d with
-  | nil => simp [assocSet, hasKey]
-  | cons p rest ih =>
-    obtain ⟨k', v'⟩ := p
-    simp only [assocSet]
-    by_cases h : k' = n
-    · subst h
-      simp [hasKey]
-    · have h1 : (k' == n) = false := by simpa using h
-      simp only [h1, Bool.false_eq_true, if_false]
-      have : hasKey k ((k', v') :: assocSet n v rest) = (k' == k || hasKey k (assocSet n v rest)) := by
-        simp [hasKey]
-      rw [this, ih]
-      have : hasKey k ((k', v') :: rest) = (k' == k || hasKey k rest) := by simp [hasKey]
-      rw [this]
-      cases (k' == k) <;> cases (n == k) <;> simp
-
 theorem hasKey_mem (k : String) (d : Data) : hasKey k d = true ↔ ∃ v, (k, v) ∈ d := by
   unfold hasKey
   simp only [List.any_eq_true, beq_iff_eq]
   constructor
   · rintro ⟨⟨k', v⟩, hm, rfl⟩; exact ⟨v, hm⟩
   · rintro ⟨v, hm⟩; exact ⟨(k, v), hm, rfl⟩
-
-theorem find?_of_nodup (decl : List FieldDecl) (hn : (decl.map (·.name)).Nodup) (f : FieldDecl) (hf : f ∈ decl) :
-    decl.find? (fun g => g.name == f.name) = some f := by
-  induction decl with
-  | nil => cases hf
-  | cons g gs ih =>
-    simp only [List.map_cons, List.nodup_cons] at hn
-    rcases List.mem_cons.mp hf with rfl | hf'
-    · simp
-    · have hne : g.name ≠ f.name := by
-        intro hh
-        apply hn.1
-        rw [hh]
-        exact List.mem_map_of_mem hf'
-      have : (g.name == f.name) = false := by simpa using hne
-      simp only [List.find?_cons, this]
-      exact ih hn.2 hf'
 
 /-! ### what each iteration reports -/
 
@@ -104,13 +68,6 @@ theorem trace_filterMap {step : α → ι → Step α} (g : ι → Option Err) (
 def repField (rec : P) (m : Mode) (o : Opts) (f : FieldDecl) (v : Val) : Option Err :=
   (fieldValue rec m o f v).err?
 
-/-- `parse_value` produced a value that is stored under the field's name -/
-def stores (rec : P) (m : Mode) (o : Opts) (f : FieldDecl) (v : Val) : Bool :=
-  match fieldValue rec m o f v with
-  | .keep (some _) => true
-  | .report _ (some _) => true
-  | _ => false
-
 theorem repField_item {rec : P} {m : Mode} {o : Opts} {f : FieldDecl} {v : Val} {e : Err}
     (h : repField rec m o f v = some e) : e.item = some f.name := by
   unfold repField fieldValue at h
@@ -130,25 +87,6 @@ theorem repField_item {rec : P} {m : Mode} {o : Opts} {f : FieldDecl} {v : Val} 
         · simp [hr, Step.err?] at h
       | preserve => simp [hp, Step.err?] at h
       | throw => simp only [hp, Step.err?, Option.some.injEq] at h; rw [← h]
-
-/-- a required field whose value is not stored has been reported -/
-theorem repField_of_required {rec : P} {m : Mode} {o : Opts} {f : FieldDecl} {v : Val}
-    (hr : f.required = true) (hs : stores rec m o f v = false) : ∃ e, repField rec m o f v = some e := by
-  unfold stores at hs
-  unfold repField
-  unfold fieldValue at hs ⊢
-  cases hty : f.ty with
-  | none => simp [hty] at hs
-  | some T =>
-    simp only [hty] at hs ⊢
-    cases hv : verdict rec T m o v with
-    | some r => simp [hv] at hs
-    | none =>
-      simp only [hv] at hs ⊢
-      cases hp : f.onError.getD o.invalidValues with
-      | exclude => simp only [hr, if_true]; exact ⟨_, rfl⟩
-      | preserve => simp [hp] at hs
-      | throw => exact ⟨_, rfl⟩
 
 theorem store_err? (name : String) (res : Data) (s : Step (Option Val)) : (store name res s).err? = s.err? := by
   cases s with
@@ -342,130 +280,40 @@ theorem ff_complete (rec : P) (m : Mode) (o : Opts) (decl : List FieldDecl) (dat
     rw [any_filter_self (fun f => f.name == k) decl] at hke
     exact hke
 
-/-! ### data-first: the second loop depends on what the first one stored -/
+/-! ### data-first (after C06's repair the second loop only asks whether the field was given) -/
 
-theorem dfStep2_sound (decl : List FieldDecl) (acc : Data) (e : Err) (he : e ∈ (trace dfStep2 decl acc).1) :
-    ∃ f ∈ decl, e = { kind := .absence, item := some f.name } ∧ f.required = true ∧ hasKey f.name acc = false := by
-  induction decl generalizing acc with
-  | nil => simp [trace] at he
-  | cons g gs ih =>
-    simp only [trace, dfStep2] at he
-    by_cases hk : hasKey g.name acc = true
-    · simp only [hk, if_true] at he
-      obtain ⟨f, hf, h⟩ := ih acc he
-      exact ⟨f, List.mem_cons_of_mem _ hf, h⟩
-    · simp only [hk, Bool.false_eq_true, if_false] at he
-      by_cases hr : g.required = true
-      · simp only [hr, if_true, List.mem_cons] at he
-        rcases he with rfl | he
-        · exact ⟨g, List.mem_cons_self, rfl, hr, by simpa using hk⟩
-        · obtain ⟨f, hf, h⟩ := ih acc he
-          exact ⟨f, List.mem_cons_of_mem _ hf, h⟩
-      · simp only [hr, Bool.false_eq_true, if_false] at he
-        cases hd : g.default with
-        | none =>
-          simp only [hd] at he
-          obtain ⟨f, hf, h⟩ := ih acc he
-          exact ⟨f, List.mem_cons_of_mem _ hf, h⟩
-        | some d =>
-          simp only [hd] at he
-          obtain ⟨f, hf, h1, h2, h3⟩ := ih _ he
-          refine ⟨f, List.mem_cons_of_mem _ hf, h1, h2, ?_⟩
-          rw [hasKey_assocSet] at h3
-          simp only [Bool.or_eq_false_iff] at h3
-          exact h3.2
+/-- what the loop over the declared fields of `data_first_parse` reports for one field -/
+def g2 (data : Data) (f : FieldDecl) : Option Err :=
+  if hasKey f.name data then none
+  else if f.required then some { kind := .absence, item := some f.name } else none
 
-theorem dfStep2_complete (decl : List FieldDecl) (hn : (decl.map (·.name)).Nodup) (acc : Data) (f : FieldDecl)
-    (hf : f ∈ decl) (hr : f.required = true) (hk : hasKey f.name acc = false) :
-    ({ kind := .absence, item := some f.name } : Err) ∈ (trace dfStep2 decl acc).1 := by
-  induction decl generalizing acc with
-  | nil => cases hf
-  | cons g gs ih =>
-    simp only [List.map_cons, List.nodup_cons] at hn
-    rcases List.mem_cons.mp hf with rfl | hf'
-    · simp [trace, dfStep2, hk, hr]
-    · have hne : g.name ≠ f.name := by
-        intro hh
-        apply hn.1
-        rw [hh]
-        exact List.mem_map_of_mem hf'
-      simp only [trace, dfStep2]
-      by_cases hkg : hasKey g.name acc = true
-      · simp only [hkg, if_true]
-        exact ih hn.2 acc hf' hk
-      · simp only [hkg, Bool.false_eq_true, if_false]
-        by_cases hrg : g.required = true
-        · simp only [hrg, if_true]
-          exact List.mem_cons_of_mem _ (ih hn.2 acc hf' hk)
-        · simp only [hrg, Bool.false_eq_true, if_false]
-          cases hd : g.default with
-          | none => simp only; exact ih hn.2 acc hf' hk
-          | some d =>
-            simp only
-            apply ih hn.2 _ hf'
-            rw [hasKey_assocSet]
-            simp [hk, hne]
+theorem dfStep2_err? (data : Data) (acc : Data) (f : FieldDecl) : (dfStep2 data acc f).err? = g2 data f := by
+  unfold dfStep2 g2
+  by_cases hk : hasKey f.name data = true
+  · simp only [hk, if_true]; rfl
+  · simp only [hk, Bool.false_eq_true, if_false]
+    by_cases hr : f.required = true
+    · simp only [hr, if_true]; rfl
+    · simp only [hr, Bool.false_eq_true, if_false]
+      cases f.default <;> rfl
 
-/-- keys of the result after the first loop of `data_first_parse` -/
-theorem fin_dfStep1_keys (rec : P) (m : Mode) (o : Opts) (decl : List FieldDecl) (data : Data) (acc : Data × Data)
-    (k : String) :
-    hasKey k (fin (dfStep1 rec m o decl) data acc).1 =
-      (hasKey k acc.1 || data.any (fun kv =>
-        match decl.find? (fun f => f.name == kv.1) with
-        | some f => f.name == k && stores rec m o f kv.2
-        | none => false)) := by
-  induction data generalizing acc with
-  | nil => simp [fin]
-  | cons kv rest ih =>
-    simp only [fin, List.any_cons]
-    generalize hgen : dfStep1 rec m o decl acc kv = s
-    unfold dfStep1 at hgen
-    cases hfind : decl.find? (fun f => f.name == kv.1) with
-    | none =>
-      simp only [hfind] at hgen
-      simp only [Bool.false_or]
-      unfold additionStep at hgen
-      cases ha : o.addition with
-      | none => simp only [ha] at hgen; subst hgen; exact ih acc
-      | some b =>
-        cases b with
-        | false => simp only [ha] at hgen; subst hgen; exact ih acc
-        | true => simp only [ha] at hgen; subst hgen; exact ih _
-    | some f =>
-      simp only [hfind] at hgen
-      simp only
-      cases hfv : fieldValue rec m o f kv.2 with
-      | keep r =>
-        cases r with
-        | none =>
-          have hst : stores rec m o f kv.2 = false := by unfold stores; rw [hfv]
-          simp only [hfv, store] at hgen; subst hgen
-          simp only [hst, Bool.and_false, Bool.false_or]; exact ih acc
-        | some r =>
-          have hst : stores rec m o f kv.2 = true := by unfold stores; rw [hfv]
-          simp only [hfv, store] at hgen; subst hgen
-          simp only [hst, Bool.and_true]
-          rw [ih, hasKey_assocSet]
-          cases (f.name == k) <;> simp
-      | report e r =>
-        cases r with
-        | none =>
-          have hst : stores rec m o f kv.2 = false := by unfold stores; rw [hfv]
-          simp only [hfv, store] at hgen; subst hgen
-          simp only [hst, Bool.and_false, Bool.false_or]; exact ih acc
-        | some r =>
-          have hst : stores rec m o f kv.2 = true := by unfold stores; rw [hfv]
-          simp only [hfv, store] at hgen; subst hgen
-          simp only [hst, Bool.and_true]
-          rw [ih, hasKey_assocSet]
-          cases (f.name == k) <;> simp
-      | abort e x => exact absurd hfv (fieldValue_noAbort rec m o f kv.2 e x)
+theorem g2_item {data : Data} {f : FieldDecl} {e : Err} (h : g2 data f = some e) : e.item = some f.name := by
+  unfold g2 at h
+  split at h
+  · simp at h
+  · split at h
+    · simp only [Option.some.injEq] at h; rw [← h]
+    · simp at h
+
+theorem hasKey_dataOf (data : Data) (i : String) : hasKey i (dataOf data i) = hasKey i data := by
+  unfold hasKey dataOf
+  exact any_filter_self (fun p => p.1 == i) data
 
 theorem reportsDF_eq (rec : P) (m : Mode) (o : Opts) (decl : List FieldDecl) (data : Data) :
-    reportsDF rec m o decl data =
-      data.filterMap (g1 rec m o decl) ++ (trace dfStep2 decl (fin (dfStep1 rec m o decl) data ([], [])).1).1 := by
+    reportsDF rec m o decl data = data.filterMap (g1 rec m o decl) ++ decl.filterMap (g2 data) := by
   unfold reportsDF
-  rw [trace_filterMap (g1 rec m o decl) (dfStep1_noAbort rec m o decl) (dfStep1_err? rec m o decl)]
+  rw [trace_filterMap (g1 rec m o decl) (dfStep1_noAbort rec m o decl) (dfStep1_err? rec m o decl),
+    trace_filterMap (g2 data) (dfStep2_noAbort data) (dfStep2_err? data)]
 
 theorem mem_dataOf {data : Data} {i k : String} {v : Val} : (k, v) ∈ dataOf data i ↔ (k, v) ∈ data ∧ k = i := by
   simp [dataOf]
@@ -473,12 +321,7 @@ theorem mem_dataOf {data : Data} {i k : String} {v : Val} : (k, v) ∈ dataOf da
 theorem mem_declOf {decl : List FieldDecl} {i : String} {f : FieldDecl} : f ∈ declOf decl i ↔ f ∈ decl ∧ f.name = i := by
   simp [declOf]
 
-theorem declOf_nodup (decl : List FieldDecl) (hn : (decl.map (·.name)).Nodup) (i : String) :
-    ((declOf decl i).map (·.name)).Nodup := by
-  unfold declOf
-  exact (List.Sublist.map _ List.filter_sublist).nodup hn
-
-theorem df_sound (rec : P) (m : Mode) (o : Opts) (decl : List FieldDecl) (hn : (decl.map (·.name)).Nodup)
+theorem df_sound (rec : P) (m : Mode) (o : Opts) (decl : List FieldDecl)
     (data : Data) (e : Err) (he : e ∈ reportsDF rec m o decl data) :
     ∃ i, e.item = some i ∧ isItem decl data i = true ∧ reportsDF rec m o (declOf decl i) (dataOf data i) ≠ [] := by
   rw [reportsDF_eq] at he
@@ -496,56 +339,23 @@ theorem df_sound (rec : P) (m : Mode) (o : Opts) (decl : List FieldDecl) (hn : (
       rw [List.append_eq_nil_iff] at hnil
       rw [hnil.1] at hmem
       cases hmem
-  · obtain ⟨f, hf, rfl, hr, hk⟩ := dfStep2_sound decl _ e he
-    refine ⟨f.name, rfl, ?_, ?_⟩
+  · obtain ⟨f, hf, hfe⟩ := List.mem_filterMap.mp he
+    refine ⟨f.name, g2_item hfe, ?_, ?_⟩
     · simp only [isItem, Bool.or_eq_true, List.any_eq_true, beq_iff_eq]
       left; exact ⟨f, hf, rfl⟩
     · rw [reportsDF_eq]
       intro hnil
+      have hmem : e ∈ (declOf decl f.name).filterMap (g2 (dataOf data f.name)) := by
+        apply List.mem_filterMap.mpr
+        refine ⟨f, mem_declOf.mpr ⟨hf, rfl⟩, ?_⟩
+        unfold g2 at hfe ⊢
+        rw [hasKey_dataOf]
+        exact hfe
       rw [List.append_eq_nil_iff] at hnil
-      by_cases hprov : hasKey f.name data = true
-      · -- provided: its value is not stored, so it was reported
-        obtain ⟨v, hv⟩ := (hasKey_mem _ _).mp hprov
-        have hfind := find?_of_nodup decl hn f hf
-        have hst : stores rec m o f v = false := by
-          cases hs : stores rec m o f v with
-          | false => rfl
-          | true =>
-            exfalso
-            rw [fin_dfStep1_keys] at hk
-            simp only [hasKey, List.any_nil, Bool.false_or] at hk
-            have : (data.any fun kv =>
-                match decl.find? (fun g => g.name == kv.1) with
-                | some g => g.name == f.name && stores rec m o g kv.2
-                | none => false) = true := by
-              apply List.any_eq_true.mpr
-              refine ⟨(f.name, v), hv, ?_⟩
-              simp only [hfind, hs, Bool.and_true, beq_self_eq_true]
-            rw [this] at hk
-            cases hk
-        obtain ⟨e', he'⟩ := repField_of_required hr hst
-        have hmem : e' ∈ (dataOf data f.name).filterMap (g1 rec m o (declOf decl f.name)) := by
-          apply List.mem_filterMap.mpr
-          refine ⟨(f.name, v), mem_dataOf.mpr ⟨hv, rfl⟩, ?_⟩
-          rw [g1_declOf]
-          unfold g1
-          simp only [hfind]
-          exact he'
-        rw [hnil.1] at hmem
-        cases hmem
-      · -- not provided: the restricted run has nothing stored either
-        have hempty : dataOf data f.name = [] := by
-          apply List.eq_nil_iff_forall_not_mem.mpr
-          rintro ⟨k, v⟩ hm
-          obtain ⟨hm1, rfl⟩ := mem_dataOf.mp hm
-          exact hprov ((hasKey_mem _ _).mpr ⟨v, hm1⟩)
-        have := dfStep2_complete (declOf decl f.name) (declOf_nodup decl hn _)
-          (fin (dfStep1 rec m o (declOf decl f.name)) (dataOf data f.name) ([], [])).1 f
-          (mem_declOf.mpr ⟨hf, rfl⟩) hr (by rw [hempty]; simp [fin, hasKey])
-        rw [hnil.2] at this
-        cases this
+      rw [hnil.2] at hmem
+      cases hmem
 
-theorem df_complete (rec : P) (m : Mode) (o : Opts) (decl : List FieldDecl) (hn : (decl.map (·.name)).Nodup)
+theorem df_complete (rec : P) (m : Mode) (o : Opts) (decl : List FieldDecl)
     (data : Data) (i : String) (hne : reportsDF rec m o (declOf decl i) (dataOf data i) ≠ []) :
     ∃ e ∈ reportsDF rec m o decl data, e.item = some i := by
   rw [reportsDF_eq] at hne
@@ -557,56 +367,30 @@ theorem df_complete (rec : P) (m : Mode) (o : Opts) (decl : List FieldDecl) (hn 
     obtain ⟨hkd, rfl⟩ := mem_dataOf.mp hkv
     rw [g1_declOf] at hke
     exact ⟨e', List.mem_append.mpr (Or.inl (List.mem_filterMap.mpr ⟨(k, v), hkd, hke⟩)), g1_item hke⟩
-  · obtain ⟨f, hf, rfl, hr, hk⟩ := dfStep2_sound _ _ e' he'
+  · obtain ⟨f, hf, hfe⟩ := List.mem_filterMap.mp he'
     obtain ⟨hfd, hfn⟩ := mem_declOf.mp hf
     subst hfn
-    refine ⟨_, List.mem_append.mpr (Or.inr (dfStep2_complete decl hn _ f hfd hr ?_)), rfl⟩
-    -- nothing is stored under f.name in the full run, because nothing is in the restricted one
-    cases hfull : hasKey f.name (fin (dfStep1 rec m o decl) data ([], [])).1 with
-    | false => rfl
-    | true =>
-      exfalso
-      rw [fin_dfStep1_keys] at hfull hk
-      simp only [hasKey, List.any_nil, Bool.false_or] at hfull hk
-      obtain ⟨⟨k, v⟩, hkv, hcond⟩ := List.any_eq_true.mp hfull
-      simp only at hcond
-      cases hfind : decl.find? (fun g => g.name == k) with
-      | none => rw [hfind] at hcond; simp at hcond
-      | some g =>
-        rw [hfind] at hcond
-        simp only [Bool.and_eq_true, beq_iff_eq] at hcond
-        have hgk : g.name = k := by simpa using List.find?_some hfind
-        have hkf : k = f.name := by rw [← hgk]; exact hcond.1
-        subst hkf
-        have : ((dataOf data f.name).any fun kv =>
-            match (declOf decl f.name).find? (fun g => g.name == kv.1) with
-            | some g => g.name == f.name && stores rec m o g kv.2
-            | none => false) = true := by
-          apply List.any_eq_true.mpr
-          refine ⟨(f.name, v), mem_dataOf.mpr ⟨hkv, rfl⟩, ?_⟩
-          simp only
-          unfold declOf
-          rw [find?_filter_self (fun g => g.name == f.name) decl, hfind]
-          simp [hcond.1, hcond.2]
-        rw [this] at hk
-        cases hk
+    refine ⟨e', List.mem_append.mpr (Or.inr (List.mem_filterMap.mpr ⟨f, hfd, ?_⟩)), g2_item hfe⟩
+    unfold g2 at hfe ⊢
+    rw [hasKey_dataOf] at hfe
+    exact hfe
 
 /-! ### both strategies -/
 
-theorem reports_sound (rec : P) (m : Mode) (o : Opts) (decl : List FieldDecl) (hn : (decl.map (·.name)).Nodup)
+theorem reports_sound (rec : P) (m : Mode) (o : Opts) (decl : List FieldDecl)
     (data : Data) (e : Err) (he : e ∈ reports rec m o decl data) :
     ∃ i, e.item = some i ∧ isItem decl data i = true ∧ reports rec m o (declOf decl i) (dataOf data i) ≠ [] := by
   unfold reports at he ⊢
   by_cases hd : o.dfs = true
-  · simp only [hd, if_true] at he ⊢; exact df_sound rec m o decl hn data e he
+  · simp only [hd, if_true] at he ⊢; exact df_sound rec m o decl data e he
   · simp only [hd, Bool.false_eq_true, if_false] at he ⊢; exact ff_sound rec m o decl data e he
 
-theorem reports_complete (rec : P) (m : Mode) (o : Opts) (decl : List FieldDecl) (hn : (decl.map (·.name)).Nodup)
+theorem reports_complete (rec : P) (m : Mode) (o : Opts) (decl : List FieldDecl)
     (data : Data) (i : String) (hne : reports rec m o (declOf decl i) (dataOf data i) ≠ []) :
     ∃ e ∈ reports rec m o decl data, e.item = some i := by
   unfold reports at hne ⊢
   by_cases hd : o.dfs = true
-  · simp only [hd, if_true] at hne ⊢; exact df_complete rec m o decl hn data i hne
+  · simp only [hd, if_true] at hne ⊢; exact df_complete rec m o decl data i hne
   · simp only [hd, Bool.false_eq_true, if_false] at hne ⊢; exact ff_complete rec m o decl data i hne
 
 end Utv.C10
